@@ -595,7 +595,7 @@ def entry_builders(P, fn):
         pushes = [b for b in sorted(body) if b in ev.sites and ev.sites[b].callee[0] == "Vec::<T, A>::push" and _has_h2p(ev.sites[b].args[1])]
         for b in pushes:
             srcs = [s for bb, s in R.loop_sources(fn) if bb in body]
-            out.append({"mode": "push-loop", "fn": fn, "bb": b, "value": strip_sites(ev.sites[b].args[1]), "lits": G.path_literals(ev, b, P), "source": srcs[0] if srcs else None, "every": all(cfg.dominates(b, src_b) for src_b in latches), "header": h})
+            out.append({"mode": "push-loop", "fn": fn, "bb": b, "value": strip_sites(ev.sites[b].args[1]), "lits": G.path_literals(ev, b, P, checks_only=True), "source": srcs[0] if srcs else None, "every": all(cfg.dominates(b, src_b) for src_b in latches), "header": h})
     # (b) map(closure) + collect
     for b, s in sorted(ev.sites.items()):
         if s.callee[0] != "Iterator::map" or len(s.args) != 2:
@@ -616,7 +616,7 @@ def entry_builders(P, fn):
                 if v is not None and v.op == "agg" and v.a[1]:
                     vals.append((gb, strip_sites(v.a[1][0]), lits))
         else:
-            vals = [(rb, strip_sites(gev.ret_at[rb]), G.path_literals(gev, rb, P)) for rb in gev.ret_at]
+            vals = [(rb, strip_sites(gev.ret_at[rb]), G.path_literals(gev, rb, P, checks_only=True)) for rb in gev.ret_at]
         vals = [v for v in vals if _has_h2p(v[1])]
         if not vals:
             continue
@@ -666,7 +666,7 @@ def accumulators(P, fn):
         accs = [b for b in sorted(body) if b in ev.sites and ev.sites[b].callee[0] in ("AddAssign::add_assign",)]
         for b in accs:
             srcs = [s for bb, s in R.loop_sources(fn) if bb in body]
-            out.append({"mode": "loop", "fn": fn, "bb": b, "lits": G.path_literals(ev, b, P), "elem": strip_sites(ev.sites[b].args[1]), "source": srcs[0] if srcs else None, "every": all(cfg.dominates(b, s_) for s_ in latches), "cap": {}})
+            out.append({"mode": "loop", "fn": fn, "bb": b, "lits": G.path_literals(ev, b, P, checks_only=True), "elem": strip_sites(ev.sites[b].args[1]), "source": srcs[0] if srcs else None, "every": all(cfg.dominates(b, s_) for s_ in latches), "cap": {}})
     for b, s in sorted(ev.sites.items()):
         if s.callee[0] not in ("Iterator::fold", "Iterator::try_fold") or len(s.args) != 3:
             continue
@@ -686,7 +686,65 @@ def accumulators(P, fn):
         # every non-error way through the closure adds the element
         okb = R.ok_blocks(g) if "Result<" in (g.locals[0].get("ty") or "") else list(gev.ret_at)
         for gb, gs in sites:
-            lits = R.subst_literals(G.path_literals(gev, gb, P), cap, P)
+            lits = R.subst_literals(G.path_literals(gev, gb, P, checks_only=True), cap, P)
             every = bool(okb) and all(g.cfg.dominates(gb, ob) for ob in okb)
             out.append({"mode": s.callee[0].split("::")[-1], "fn": g, "bb": gb, "lits": lits, "elem": strip_sites(subst(gs.args[1], cap)), "source": strip_sites(s.args[0]), "every": every, "cap": cap})
     return out
+
+
+# ---------------------------------------------------------------------------
+# parameter-range rejections decided on a finite grid
+
+
+def check_range_rejections(ctx, rule, P, fn_key, params, valid, grid, describe):
+    """Own rejections of integer parameters: every Err exit of fn whose path condition consists of comparisons over the
+    given parameters and constants is evaluated on a finite grid (exhaustive folding of the extracted comparison
+    terms); no point of the valid region may be rejected.  Exits whose condition involves anything else are not
+    decided here."""
+    from . import guardrules as R
+
+    f = P.fns.get(fn_key)
+    if f is None:
+        return
+    ev = evaluate(f)
+    pterms = {}
+    for i in range(1, f.arg_count + 1):
+        if f.locals[i].get("name") in params:
+            pterms[f.locals[i]["name"]] = T("param", i, ev.pname(i))
+    if set(pterms) != set(params):
+        return
+    n = 0
+    for b in R.err_blocks(f):
+        lits = [(a, p) for a, p in G.path_literals(ev, b, P, checks_only=True)]
+        cmps = [(a, p) for a, p in lits if a[0] == "atom" and a[1] == "cmp"]
+        others = [(a, p) for a, p in lits if not (a[0] == "atom" and a[1] == "cmp")]
+        if not cmps:
+            continue
+
+        def only_params(t):
+            return all(x.op != "param" or x in pterms.values() for x in subterms(t)) and not any(x.op in ("call", "mutcall", "loop", "phi") for x in subterms(t))
+
+        cmps = [(a, p) for a, p in cmps if only_params(a[3]) and only_params(a[4]) and any(x.op == "param" for x in subterms(a[3]) | subterms(a[4]))]
+        if not cmps or any(any(x.op == "param" for x in subterms(a[2])) for a, p in others if len(a) > 2 and hasattr(a[2], "op")):
+            continue
+        n += 1
+        bad = None
+        for pt in grid:
+            env = {pterms[k]: (v, 64, False) for k, v in zip(params, pt)}
+            try:
+                holds = True
+                for a, pol in cmps:
+                    x, y = eval_int(a[3], env)[0], eval_int(a[4], env)[0]
+                    r = {"Lt": x < y, "Le": x <= y, "Gt": x > y, "Ge": x >= y, "Eq": x == y, "Ne": x != y}[a[2]]
+                    if r != pol:
+                        holds = False
+                        break
+            except Exception:
+                holds = False
+                break
+            if holds and valid(*pt):
+                bad = pt
+                break
+        conds = " & ".join("%s%s %s %s" % ("" if p else "!", show(a[3], 3), a[2], show(a[4], 3)) for a, p in cmps)
+        ctx.ob(rule, "%s/err[%s]" % (fn_key, conds[:80]), bad is None, "%s rejects when %s: %s" % (fn_key, conds, "no valid %s is rejected (folded over the grid)" % describe if bad is None else "REJECTS the valid %s %s" % (describe, dict(zip(params, bad)))), where=where(f, b))
+    return n
